@@ -133,3 +133,17 @@ def seq_concat(a, b):
 def seq_same(a, b):
     a, b = tuple(a), tuple(b)
     return len(a) == len(b) and all(x is y for x, y in zip(a, b))
+
+
+def assume(cond):
+    if not cond:
+        raise AssumptionNotMet()
+
+
+class AssumptionNotMet(Exception):
+    pass
+
+
+def json_roundtrip(v):
+    import json
+    return json.loads(json.dumps(v))
